@@ -172,10 +172,6 @@ __CPROVER_loop_invariant(1 <= r && r <= A__p->row_ + 1 && gv_ael_calls == 2 * (r
                          bb >= 0 && bb <= (double)(r - 1) * SQ_HI && (bb == 0 || bb >= SQ_LO) &&
                          ab >= -(double)(r - 1) * SQ_HI && ab <= (double)(r - 1) * SQ_HI)
 __CPROVER_decreases((long)A__p->row_ + 1 - r)
-//@ post LocalNetwork_singular_coords_point 1
-#ifdef GV_EXCL_ZERO_COLUMN
-__CPROVER_assume((aa == 0) == (bb == 0));    /* exclusion predicate of the zero-column finding: not exactly one of the two columns is zero */
-#endif
 //@ at LocalNetwork_singular_coords_point decision
 gv_reached++; gv_aa = aa; gv_ab = ab; gv_bb = bb; gv_D = D;
 //@ end
